@@ -61,6 +61,50 @@ def L.encodeOut : L → Env → Out → Option (Bytes × Out)
     | (_, a) :: (_, b) :: (_, c) :: (_, d) :: (_, t) :: o' =>
       (rest.encodeOut e o').map (fun (bs, o'') => (encHeader ⟨a.toInt, b.toInt, c.toInt, d.toInt, t.toInt⟩ ++ bs, o''))
     | _ => none
+  | .times n _ body rest, e, o =>
+    match encodeElems (fun q => body.encodeOut e q) n o with
+    | none => none
+    | some (b1, o1) => (rest.encodeOut e o1).map (fun (b2, o2) => (b1 ++ b2, o2))
+  | .sub _ body rest, e, o =>
+    match body.encodeOut e o with
+    | none => none
+    | some (b1, o1) => (rest.encodeOut e o1).map (fun (b2, o2) => (b1 ++ b2, o2))
+  | .kfld _ p _ rest, e, o =>
+    match o with
+    | [] => none
+    | (_, v) :: o' => (rest.encodeOut e o').map (fun (bs, o'') => (p.encode v ++ bs, o''))
+  | .key _ p _ rest, e, o =>
+    match o with
+    | [] => none
+    | (_, v) :: o' => (rest.encodeOut e o').map (fun (bs, o'') => (p.encode v ++ bs, o''))
+  | .mopt m _ body rest, e, o =>
+    match o with
+    | [] => none
+    | (_, flag) :: o' =>
+      if flag.toInt != 0 then
+        match body.encodeOut e o' with
+        | none => none
+        | some (b1, o1) => (rest.encodeOut e o1).map (fun (b2, o2) => (m :: (b1 ++ b2), o2))
+      else (rest.encodeOut e o').map (fun (b2, o2) => (0 :: b2, o2))
+  | .vopt _ _ body rest, e, o =>
+    match o with
+    | [] => none
+    | (_, flag) :: o' =>
+      if flag.toInt != 0 then
+        match body.encodeOut e o' with
+        | none => none
+        | some (b1, o1) => (rest.encodeOut e o1).map (fun (b2, o2) => (1 :: (b1 ++ b2), o2))
+      else (rest.encodeOut e o').map (fun (b2, o2) => (0 :: b2, o2))
+  | .mrep _ _ _ _, _, _ => none      -- nil and empty tables encode differently but carry the same rows
+  | .vrep _ _ body rest, e, o =>
+    match o with
+    | [] => none
+    | (_, n) :: o' =>
+      match encodeElems (fun q => body.encodeOut e q) n.toInt.toNat o' with
+      | none => none
+      | some (b1, o1) => (rest.encodeOut e o1).map (fun (b2, o2) => (encDecimal n.toInt.toNat ++ (b1 ++ b2), o2))
+  | .srep cnt _ rest, e, o => (rest.encodeOut e o).map (fun (bs, o') => (cnt.encode (.int 0) ++ bs, o'))
+  | .avail body, e, o => body.encodeOut e o
   | .unknown _, _, _ => none
 
 def L.known : L → Bool
@@ -75,6 +119,16 @@ def L.known : L → Bool
   | .rep _ _ b rest => b.known && rest.known
   | .wrap b rest => b.known && rest.known
   | .hdr rest => rest.known
+  | .times _ _ b rest => b.known && rest.known
+  | .sub _ b rest => b.known && rest.known
+  | .kfld _ _ _ rest => rest.known
+  | .key _ _ _ rest => rest.known
+  | .mopt _ _ b rest => b.known && rest.known
+  | .vopt _ _ b rest => b.known && rest.known
+  | .mrep _ _ _ _ => false
+  | .vrep _ _ b rest => b.known && rest.known
+  | .srep _ _ rest => rest.known
+  | .avail b => b.known
   | .unknown _ => false
 
 theorem encodeElems_expect (bw : L) (E : Env) (pfx name : String) (x : Rec)
@@ -141,6 +195,50 @@ theorem encodeOut_expect (w : L) (hk : w.known = true) (E : Env) (pfx : String) 
   | hdr rest ih =>
     simp only [L.known] at hk
     simp [L.encodeOut, L.expect, L.write, hdrOut, hdrOf, Val.toInt, ih hk]
+  | times n nm body rest ihb ihr =>
+    simp only [L.known, Bool.and_eq_true] at hk
+    simp only [L.encodeOut, L.expect, L.write, List.append_assoc]
+    rw [encodeElems_expect body E pfx nm x (fun q m => ihb hk.1 q m)]
+    simp [ihr hk.2]
+  | sub nm body rest ihb ihr =>
+    simp only [L.known, Bool.and_eq_true] at hk
+    simp only [L.encodeOut, L.expect, L.write, List.append_assoc]
+    rw [ihb hk.1]; simp [ihr hk.2]
+  | kfld n p k rest ih =>
+    simp only [L.known] at hk
+    simp [L.encodeOut, L.expect, L.write, ih hk]
+  | key n p v rest ih =>
+    simp only [L.known] at hk
+    simp [L.encodeOut, L.expect, L.write, ih hk]
+  | mopt m n body rest ihb ihr =>
+    simp only [L.known, Bool.and_eq_true] at hk
+    simp only [L.encodeOut, L.expect, L.write, List.append_assoc]
+    cases present pfx n x
+    · simp [Val.toInt, ihr hk.2]
+    · have e10 : ((1 : Int) != 0) = true := by decide
+      simp only [if_true, List.cons_append, Val.toInt, e10]
+      rw [ihb hk.1]; simp [ihr hk.2]
+  | vopt v n body rest ihb ihr =>
+    simp only [L.known, Bool.and_eq_true] at hk
+    simp only [L.encodeOut, L.expect, L.write, List.append_assoc]
+    cases present pfx n x
+    · simp [Val.toInt, ihr hk.2]
+    · have e10 : ((1 : Int) != 0) = true := by decide
+      simp only [if_true, List.cons_append, Val.toInt, e10]
+      rw [ihb hk.1]; simp [ihr hk.2]
+  | mrep m n body rest _ _ => simp [L.known] at hk
+  | vrep v n body rest ihb ihr =>
+    simp only [L.known, Bool.and_eq_true] at hk
+    simp only [L.encodeOut, L.expect, L.write, List.cons_append, List.append_assoc, Val.toInt,
+      Int.toNat_natCast]
+    rw [encodeElems_expect body E pfx n x (fun q m => ihb hk.1 q m)]
+    simp [ihr hk.2]
+  | srep c body rest _ ihr =>
+    simp only [L.known] at hk
+    simp [L.encodeOut, L.expect, L.write, ihr hk]
+  | avail body ih =>
+    simp only [L.known] at hk
+    simp [L.encodeOut, L.expect, L.write, ih hk]
   | unknown w => simp [L.known] at hk
 
 /-- two records with the same carried fields have the same encoding -/
@@ -151,89 +249,15 @@ theorem write_eq_of_expect_eq (w : L) (hk : w.known = true) (E : Env) (pfx : Str
   rw [h, hy] at hx
   simpa using hx.symm
 
-theorem known_of_agree : ∀ (f : Nat) (w r : L) (s : SEnv) (d : DEnv), agree f w r s d = true → w.known = true := by
-  intro f
-  induction f with
-  | zero => intro w r s d h; simp [agree] at h
-  | succ f ih =>
-    intro w r s d h
-    by_cases hr : ∃ c t e rest, r = .ite c t e rest
-    · obtain ⟨c, t, e, rr, rfl⟩ := hr
-      cases hl : s.lookup c.var with
-      | some v =>
-        have h' : agree f w ((if c.test v then t else e).append rr) s d = true := by
-          cases w <;> simp only [agree, hl] at h <;> exact h
-        exact ih _ _ _ _ h'
-      | none =>
-        cases w with
-        | ite cw tw ew rw' =>
-          rw [agree.eq_2, hl] at h
-          simp only [Bool.and_eq_true] at h
-          simp only [L.known, Bool.and_eq_true]
-          exact ⟨⟨ih _ _ _ _ h.1.1.2, ih _ _ _ _ h.1.2⟩, ih _ _ _ _ h.2⟩
-        | _ => simp [agree, hl] at h
-    · by_cases hg : ∃ c rest, r = .guard c rest
-      · obtain ⟨c, rr, rfl⟩ := hg
-        cases hl : s.lookup c.var with
-        | none => exfalso; cases w <;> simp [agree, hl] at h
-        | some v =>
-          have h2 : (!c.test v && agree f w rr s d) = true := by
-            cases w <;> simpa only [agree, hl] using h
-          simp only [Bool.and_eq_true] at h2
-          exact ih _ _ _ _ h2.2
-      cases w <;> cases r <;> first
-        | (exfalso; exact hr ⟨_, _, _, _, rfl⟩)
-        | (exfalso; exact hg ⟨_, _, rfl⟩)
-        | (exfalso; cases h; done)
-        | skip
-      case nil.nil => rfl
-      case fld.fld =>
-        simp only [agree, Bool.and_eq_true] at h
-        simp only [L.known]
-        exact ih _ _ _ _ h.2
-      case fld.skip n p g w q r =>
-        cases q <;> cases r <;> first | (exfalso; cases h; done) | skip
-        simp only [agree, Bool.and_eq_true] at h
-        simp only [L.known]
-        exact ih _ _ _ _ h.2
-      case lit.skip =>
-        simp only [agree, Bool.and_eq_true] at h
-        simp only [L.known]
-        exact ih _ _ _ _ h.2
-      case lit.var =>
-        simp only [agree, Bool.and_eq_true] at h
-        simp only [L.known]
-        exact ih _ _ _ _ h.2
-      case var.var =>
-        simp only [agree, Bool.and_eq_true] at h
-        simp only [L.known]
-        exact ih _ _ _ _ h.2
-      case opt.opt =>
-        simp only [agree, Bool.and_eq_true] at h
-        simp only [L.known, Bool.and_eq_true]
-        exact ⟨ih _ _ _ _ h.1.2, ih _ _ _ _ h.2⟩
-      case rep.rep =>
-        simp only [agree, Bool.and_eq_true] at h
-        simp only [L.known, Bool.and_eq_true]
-        exact ⟨ih _ _ _ _ h.1.2, ih _ _ _ _ h.2⟩
-      case wrap.wrap =>
-        simp only [agree, Bool.and_eq_true] at h
-        simp only [L.known, Bool.and_eq_true]
-        exact ⟨ih _ _ _ _ h.1, ih _ _ _ _ h.2⟩
-      case hdr.hdr =>
-        simp only [agree] at h
-        simp only [L.known]
-        exact ih _ _ _ _ h
-
 /-- **re-encoding is byte-identical**: serialising the fields the reader delivered gives back exactly
     the bytes that were read -/
-theorem reencode_identical (vr : ValueRT) (w r : L) (h : agrees w r = true)
+theorem reencode_identical (vr : ValueRT) (w r : L) (h : agrees w r = true) (hk : w.known = true)
     (E : Env) (pfx : String) (x : Rec) (rest : Bytes) (hwf : w.WF vr E pfx x) :
     ∃ o E', r.read pfx E (w.write E pfx x ++ rest) = some (o, E', rest) ∧
       w.encodeOut E o = some (w.write E pfx x, []) := by
   obtain ⟨E', hr⟩ := agree_roundtrip vr w r h E pfx x rest hwf
   refine ⟨_, E', hr, ?_⟩
-  have := encodeOut_expect w (known_of_agree _ w r [] [] h) E pfx x []
+  have := encodeOut_expect w hk E pfx x []
   simpa using this
 
 end Layout
